@@ -1,1 +1,59 @@
-From PS Require Import Spec.Primes Spec.Cursor Model.Iterator.
+(** C03 - An iterator is a consistent cursor under any operation history.
+    This file contains only the property theorems (closed by [exact]) and
+    their assumptions. *)
+From Coq Require Import NArith List.
+From PS Require Import Spec.Primes Spec.Cursor Model.Iterator Proofs.IteratorP Proofs.CursorP Proofs.IteratorCor.
+Import ListNotations.
+Local Open Scope N_scope.
+
+(** For every start s, stop_hint h, history os (targets < 2^64), every choice
+    of the chunk-length heuristics, every block cutter and every kernel that
+    meets the kernel specification: the outputs of the iterator model are a
+    run of the abstract cursor started at (s, s+1). *)
+Theorem C03_iterator_refines_cursor :
+  forall nextDist prevDist maxGap kernel cut, kernel_spec kernel -> cut_spec cut ->
+  forall fuel s h os it' rs,
+    s <= MAX64 -> Forall op_ok os ->
+    run nextDist prevDist maxGap kernel cut fuel (fresh_iter s h) os = Done (it', rs) ->
+    cursor_run (s, s + 1) os rs.
+Proof. exact iterator_refines_cursor. Qed.
+Print Assumptions C03_iterator_refines_cursor.
+
+(** every call returns (no history runs out of the stated fuel, no exception escapes a step) *)
+Theorem C03_iterator_total :
+  forall nextDist prevDist maxGap kernel cut, kernel_spec kernel -> cut_spec cut ->
+  forall os it c, R it c -> Forall op_ok os ->
+    exists it' rs, run nextDist prevDist maxGap kernel cut enough_fuel it os = Done (it', rs).
+Proof. exact iterator_total. Qed.
+Print Assumptions C03_iterator_total.
+
+(** stop_hint (and the heuristics, the block layout, the fuel) never change a returned value *)
+Theorem C03_hint_irrelevant :
+  forall nextDist prevDist maxGap kernel cut nextDist' prevDist' maxGap' kernel' cut'
+         fuel fuel' s h h' os os' it1 rs it2 rs',
+  kernel_spec kernel -> cut_spec cut -> kernel_spec kernel' -> cut_spec cut' ->
+  s <= MAX64 -> Forall op_ok os -> Forall op_ok os' ->
+  map erase_hint os = map erase_hint os' ->
+  run nextDist prevDist maxGap kernel cut fuel (fresh_iter s h) os = Done (it1, rs) ->
+  run nextDist' prevDist' maxGap' kernel' cut' fuel' (fresh_iter s h') os' = Done (it2, rs') ->
+  rs = rs'.
+Proof. exact hint_irrelevant. Qed.
+Print Assumptions C03_hint_irrelevant.
+
+(** a cleared, moved-from or re-jumped iterator behaves exactly like a fresh one *)
+Theorem C03_cleared_is_fresh :
+  forall nextDist prevDist maxGap kernel cut fuel fuel' s h o s' h' os it1 rs it2 rs',
+  kernel_spec kernel -> cut_spec cut ->
+  s <= MAX64 -> Forall op_ok os ->
+  (o = Clear /\ s' = 0 \/ o = MovedFrom /\ s' = 0 \/ (exists hh, o = JumpTo s' hh) /\ s' <= MAX64) ->
+  forall pre, Forall op_ok pre ->
+  run nextDist prevDist maxGap kernel cut fuel (fresh_iter s h) (pre ++ o :: os) = Done (it1, rs) ->
+  run nextDist prevDist maxGap kernel cut fuel' (fresh_iter s' h') os = Done (it2, rs') ->
+  skipn (S (length pre)) rs = rs'.
+Proof. exact cleared_is_fresh. Qed.
+Print Assumptions C03_cleared_is_fresh.
+
+(** the hypotheses are satisfiable: the specification itself is a kernel, [chunks n] a block cutter *)
+Theorem C03_premises_inhabited : kernel_spec primes_between /\ forall n, cut_spec (chunks n).
+Proof. exact (conj (fun a b _ _ => eq_refl) chunks_ok). Qed.
+Print Assumptions C03_premises_inhabited.
